@@ -250,9 +250,9 @@ StylesId(s, n) ==
     [] OTHER            -> RId(1)
 RootDocId(s) == CASE s = "nonrid" -> "docRel" [] s = "sparse" -> "rId3" [] OTHER -> "rId1"
 
-\* the abstract state of the foreign package with the given items; hdrown = the default header has its own
-\* relationship part (a picture in the header) whose id equals an id of the main part; props = package-level
-\* relationships to the property parts
+\* the abstract state of the foreign package with the given items; hdrown = header, footer and theme part have their
+\* own relationship parts (a picture in the header whose relationship id equals an id of the main part, an external
+\* hyperlink in the footer, a picture of the theme); props = package-level relationships to the property parts
 ForeignPkg(s, items, hdrown, props) ==
   LET sel == SelectSeq(ItemSeq, LAMBDA k : k \in items)
       n   == Len(sel)
@@ -261,15 +261,21 @@ ForeignPkg(s, items, hdrown, props) ==
       own == hdrown /\ "hdr" \in items
       hid == IF n > 0 THEN SchemeId(s, 1, n) ELSE "rId1"
       hr  == IF own THEN <<MkRel("word/header1.xml", "header", hid, "image", "word/media/hdrlogo.png", "")>> ELSE <<>>
+      \* ... the first-page footer a hyperlink of its own, and the theme part (a part the library does not interpret) a picture
+      fown == hdrown /\ "ftr" \in items
+      town == hdrown /\ "theme" \in items
+      fr  == IF fown THEN <<MkRel("word/footer1.xml", "footer", "rId1", "hyperlink", "https://example.com/footer", "External")>> ELSE <<>>
+      tr  == IF town THEN <<MkRel("word/theme/theme1.xml", "other", "rId1", "image", "word/media/themeimg.png", "")>> ELSE <<>>
       rr  == <<MkRel("", "root", RootDocId(s), "officeDocument", MainName, "")>>
              \o (IF props THEN <<MkRel("", "root", "rId2", "core-properties", "docProps/core.xml", ""),
                                  MkRel("", "root", "rId4", "extended-properties", "docProps/app.xml", "")>> ELSE <<>>)
       rf  == SelectSeq([j \in 1..n |-> MkRef(MainName, "main", ItemRel(sel[j]).kind, ItemRel(sel[j]).slot, SchemeId(s, j, n))],
                        LAMBDA f : f.kind # "")
-      all == rr \o (IF s = "stylesmid" /\ n > 0 THEN <<mr[1]>> \o sty \o SubSeq(mr, 2, n) ELSE IF s = "styleslast" THEN mr \o sty ELSE sty \o mr) \o hr
+      all == rr \o (IF s = "stylesmid" /\ n > 0 THEN <<mr[1]>> \o sty \o SubSeq(mr, 2, n) ELSE IF s = "styleslast" THEN mr \o sty ELSE sty \o mr) \o hr \o fr \o tr
   IN [main  |-> MainName,
       rels  |-> all,
-      refs  |-> rf \o (IF own THEN <<MkRef("word/header1.xml", "header", "embed", "", hid)>> ELSE <<>>),
+      refs  |-> rf \o (IF own THEN <<MkRef("word/header1.xml", "header", "embed", "", hid)>> ELSE <<>>)
+                  \o (IF fown THEN <<MkRef("word/footer1.xml", "footer", "hlink", "", "rId1")>> ELSE <<>>),
       parts |-> {MainName, "word/styles.xml"} \cup {r.tgt : r \in {x \in ToSet(all) : x.mode # "External"}},
       ph    |-> 0]
 =============================================================================
